@@ -1,11 +1,11 @@
 """C04: acks reach each source in read order."""
 import os, sys
 sys.path.insert(0, os.path.dirname(__file__))
-from funnel_common import funnel_job, funnel_conc_job, funnel_shared_job, FUNNEL_RULE, FUNNEL_ASSUME
+from funnel_common import arbiter_job, funnel_job, funnel_conc_job, funnel_shared_job, FUNNEL_RULE, FUNNEL_ASSUME
 
 PROP = {
     "lean_modules": ["ConduitModel.Props.C04", "ConduitModel.Props.ArbiterProps"],
-    "jobs": [funnel_job("C04"), funnel_conc_job("C04"), funnel_shared_job("C04")],
+    "jobs": [funnel_job("C04"), funnel_conc_job("C04"), funnel_shared_job("C04"), arbiter_job()],
     "rule": FUNNEL_RULE,
     "strength": 'arbiter release order and loop partition: full; whole pass: partial (see note)',
     "assumptions": FUNNEL_ASSUME,
